@@ -15,21 +15,20 @@ var osFuncs = map[string]bool{
 	"Open": true, "OpenFile": true, "Create": true, "CreateTemp": true, "MkdirAll": true, "Mkdir": true,
 	"MkdirTemp": true, "Remove": true, "RemoveAll": true, "Rename": true, "Stat": true, "Lstat": true,
 	"ReadDir": true, "ReadFile": true, "WriteFile": true, "Readlink": true, "Symlink": true, "Chmod": true,
-	"Link": true, "Getwd": true, "Chdir": true, "Environ": true, "Getpid": true, "Exit": true, "FindProcess": true,
+	"Link": true, "Truncate": true, "Chtimes": true, "Chown": true, "Lchown": true, "Getwd": true, "Chdir": true, "Environ": true, "Getpid": true, "Exit": true, "FindProcess": true,
 }
 
 // os functions that touch durable state but have no simos counterpart: refuse to guess.
 var osUnsupported = map[string]bool{
-	"Truncate": true, "Chown": true, "Lchown": true, "Chtimes": true, "StartProcess": true,
-	"CopyFS": true, "Pipe": true, "Getppid": true,
+	"StartProcess": true, "CopyFS": true, "Pipe": true, "Getppid": true,
 }
 
 var fileMethods = map[string]string{
 	"Write": "FileWrite", "WriteString": "FileWriteString", "Read": "FileRead", "Close": "FileClose",
-	"Stat": "FileStat", "Chmod": "FileChmod", "Sync": "FileSync",
+	"Stat": "FileStat", "Chmod": "FileChmod", "Sync": "FileSync", "Truncate": "FileTruncate",
 }
 
-var fileMethodsUnsupported = map[string]bool{"Truncate": true, "WriteAt": true, "ReadFrom": true, "Chown": true}
+var fileMethodsUnsupported = map[string]bool{"WriteAt": true, "ReadFrom": true, "Chown": true}
 
 func sos(name string) ast.Expr {
 	return &ast.SelectorExpr{X: ast.NewIdent("simos"), Sel: ast.NewIdent(name)}
@@ -59,7 +58,9 @@ func (r *rewriter) rewritePkgCall(c *astutil.Cursor, x *ast.CallExpr, pkg, fn st
 		x.Fun = sos(fn)
 		x.Args = append(x.Args, site)
 	case pkg == "io" && (fn == "CopyN" || fn == "CopyBuffer"):
-		unsup(r.fset, x.Pos(), "io."+fn)
+		r.markOS("io-call")
+		x.Fun = sos(fn)
+		x.Args = append(x.Args, site)
 	case pkg == "io/ioutil":
 		unsup(r.fset, x.Pos(), "io/ioutil."+fn)
 	case pkg == "path/filepath" && fn == "Walk":
@@ -67,7 +68,9 @@ func (r *rewriter) rewritePkgCall(c *astutil.Cursor, x *ast.CallExpr, pkg, fn st
 		x.Fun = sos("Walk")
 		x.Args = append(x.Args, site)
 	case pkg == "path/filepath" && fn == "WalkDir":
-		unsup(r.fset, x.Pos(), "filepath.WalkDir")
+		r.markOS("walk")
+		x.Fun = sos("WalkDir")
+		x.Args = append(x.Args, site)
 	case pkg == "os/signal" && fn == "Notify":
 		r.markOS("signal")
 		x.Fun = sos("SignalNotify")
